@@ -86,6 +86,7 @@ def run(rec):
     inplace_frames(rec, rng)
     shallow_copy_structure(rec, rng)
     mps_frames(rec, rng)
+    shift_symmetry_frames(rec, rng)
 
 
 def make_valid_frame(rec, rng):
@@ -224,3 +225,47 @@ def mps_frames(rec, rng):
                         rec.check(all(a is b for a, b in zip(pb.sites, given)) and len(pb.sites) == L,
                                   f'MPS.{name}:changes-sites-of-another-MPS-built-from-the-same-list', '', inp)
                         pa = pa2
+
+
+def shift_symmetry_frames(rec, rng):
+    """charges that transform under translation (DipolarChargeInfo): reading a tensor of an infinite MPS / MPO in another unit cell
+    shifts the charges of what is *returned* - the stored tensors (values, legs by identity and content, qtotal, labels) stay as they are,
+    for every read accessor and both values of `copy`"""
+    from tenpy.models.spins import DipolarSpinChain
+    from tenpy.networks.mps import MPS
+    for L in (2, 3):
+        M = DipolarSpinChain({'L': L, 'S': 1, 'bc_MPS': 'infinite', 'conserve': 'dipole', 'J3': 1., 'J4': 0.3})
+        psi = MPS.from_product_state(M.lat.mps_sites(), (['0.0', 'up', 'down', '0.0'])[:L], 'infinite', unit_cell_width=M.lat.mps_unit_cell_width)
+        H = M.H_MPO
+
+        def snap():
+            out = []
+            for T in list(psi._B) + list(H._W):
+                out.append((T, list(T.legs), [(l.charges.copy(), l.slices.copy(), l.qconj) for l in T.legs], T.qtotal.copy(), T.get_leg_labels(),
+                            T.to_ndarray().copy()))
+            return out
+
+        def same(s0):
+            for (T, legs, content, qt, labs, dense), T_now in zip(s0, list(psi._B) + list(H._W)):
+                if T_now is not T or list(T.legs) != legs or not all(a is b for a, b in zip(T.legs, legs)):
+                    return 'a stored tensor or one of its legs was replaced'
+                for l, (ch, sl, qc) in zip(T.legs, content):
+                    if not (np.array_equal(l.charges, ch) and np.array_equal(l.slices, sl) and l.qconj == qc):
+                        return 'charges of a leg of a stored tensor changed'
+                if not np.array_equal(T.qtotal, qt) or T.get_leg_labels() != labs or not np.array_equal(T.to_ndarray(), dense):
+                    return 'qtotal / labels / entries of a stored tensor changed'
+            return None
+        reads = [('get_B(copy=True)', lambda i: psi.get_B(i, copy=True)), ('get_B(copy=False)', lambda i: psi.get_B(i, copy=False)),
+                 ('get_B(form=A)', lambda i: psi.get_B(i, form='A')), ('get_theta(n=1)', lambda i: psi.get_theta(i, n=1)),
+                 ('get_theta(n=2)', lambda i: psi.get_theta(i, n=2)), ('expectation_value', lambda i: psi.expectation_value('Sz', sites=[i])),
+                 ('get_SL', lambda i: psi.get_SL(i)), ('MPO.get_W(copy=True)', lambda i: H.get_W(i, copy=True)), ('MPO.get_W', lambda i: H.get_W(i))]
+        for name, fn in reads:
+            for i in (0, L - 1, L, 2 * L + 1, -1, -L - 1):
+                inp = {'L': L, 'accessor': name, 'site': i}
+                rec.begin(f'C03 shift symmetry {inp}')
+                s0 = snap()
+                ok, _ = rec.guarded(f'shift-symmetry:{name}:exception', lambda: fn(i), inp)
+                rec.case(('shift', L, name, i), i < 0 or i >= L)
+                if ok:
+                    msg = same(s0)
+                    rec.check(msg is None, f'shift-symmetry:{name}:changes-a-stored-tensor', str(msg), inp)
